@@ -20,6 +20,9 @@ Section PvInd.
   Hypothesis HList : forall l, Forall P l -> P (VList l).
   Hypothesis HDict : forall kvs, Forall (fun kv => P (snd kv)) kvs -> P (VDict kvs).
   Hypothesis HObj : forall c fs, Forall (fun kv => P (snd kv)) fs -> P (VObj c fs).
+  Hypothesis HColl : forall ck l, Forall P l -> P (VColl ck l).
+  Hypothesis HEnum : forall e m, P (VEnum e m).
+  Hypothesis HNT : forall c l, Forall P l -> P (VNT c l).
 
   Fixpoint pv_ind' (v: pv) : P v :=
     let go := fix go (l: list (string * pv)) : Forall (fun kv => P (snd kv)) l :=
@@ -28,14 +31,17 @@ Section PvInd.
                 | kv :: r => Forall_cons kv
                                (match kv as kv0 return P (snd kv0) with (k, x) => pv_ind' x end) (go r)
                 end in
+    let gol := fix gol (l: list pv) : Forall P l :=
+                 match l with [] => Forall_nil _ | x :: r => Forall_cons x (pv_ind' x) (gol r) end in
     match v with
     | VNone => HNone | VBool b => HBool b | VInt z => HInt z | VFloat f => HFloat f
     | VStr s => HStr s | VLeaf k p => HLeaf k p
-    | VList l =>
-        HList l ((fix gol (l: list pv) : Forall P l :=
-                    match l with [] => Forall_nil _ | x :: r => Forall_cons x (pv_ind' x) (gol r) end) l)
+    | VList l => HList l (gol l)
     | VDict kvs => HDict kvs (go kvs)
     | VObj c fs => HObj c fs (go fs)
+    | VColl ck l => HColl ck l (gol l)
+    | VEnum e m => HEnum e m
+    | VNT c l => HNT c l (gol l)
     end.
 End PvInd.
 
@@ -153,7 +159,7 @@ Fixpoint nonatb (b: bv) : bool :=
 
 Lemma any_pack_nonat : forall v b, any_pack v = Ok b -> nonatb b = true.
 Proof.
-  induction v as [|b0|z0|f0|s0|k p|l IHl|kvs IHk|c fs _] using pv_ind'; intros b H; simpl in H;
+  induction v as [|b0|z0|f0|s0|k p|l IHl|kvs IHk|c fs _|ck cl _|en em|nc ni _] using pv_ind'; intros b H; simpl in H;
     try (inversion H; reflexivity); try discriminate.
   - apply bind_ok in H. destruct H as [bs [Hbs H]]. inversion H; subst b; clear H. simpl.
     revert bs Hbs. induction IHl as [|x r Hx _ IHr]; intros bs Hbs; simpl in Hbs.
@@ -172,7 +178,7 @@ Qed.
 
 Lemma any_rt : forall v b, any_pack v = Ok b -> any_unpack b = Ok v.
 Proof.
-  induction v as [|b0|z0|f0|s0|k p|l IHl|kvs IHk|c fs _] using pv_ind'; intros b H; simpl in H;
+  induction v as [|b0|z0|f0|s0|k p|l IHl|kvs IHk|c fs _|ck cl _|en em|nc ni _] using pv_ind'; intros b H; simpl in H;
     try (inversion H; reflexivity); try discriminate.
   - apply bind_ok in H. destruct H as [bs [Hbs H]]. inversion H; subst b; clear H. simpl.
     assert (Hm : mapM any_unpack bs = Ok l).
@@ -207,6 +213,7 @@ Section Model.
   Variable uparse : nat -> lkind -> string -> option string.
   Variable leaf_ok : lkind -> string -> bool.
   Variable E : env.
+  Variable EN : enums.
 
   (* assumed laws of the stdlib leaf codecs and of the user's strategy pairs *)
   Hypothesis leaf_law : forall k p, leaf_ok k p = true -> parse_leaf k (render k p) = Some p.
@@ -214,8 +221,8 @@ Section Model.
   (* bytes and bytearray share one rendering *)
   Hypothesis render_wire : forall k p, render (wire k) p = render k p.
 
-  Notation pack := (pack render urender E).
-  Notation unpack := (unpack parse_leaf uparse E).
+  Notation pack := (pack render urender E EN).
+  Notation unpack := (unpack parse_leaf uparse E EN).
   Notation pack_leaf := (pack_leaf render urender).
   Notation unpack_leaf := (unpack_leaf parse_leaf uparse).
   Notation pack_data := (pack_data E).
@@ -249,8 +256,37 @@ Section Model.
     | TDiscr _ vs => match v with
                      | VObj c' _ => if is_variant vs c' then pack_data (pack ls) ls.(omit_none) v c' else Err EBad
                      | _ => Err EBad end
+    | TColl ck t' => match v with
+                     | VColl ck' l => if ckind_eqb ck ck'
+                                      then bs <- mapM (fun x => pack ls x self t') l ;; Ok (BList bs)
+                                      else Err EBad
+                     | _ => Err EBad end
+    | TEnum e => match v with
+                 | VEnum e' m => if String.eqb e e' then
+                                   match lookup e EN with
+                                   | Some ms => match lookup m ms with Some x => Ok (ev_to_bv x) | None => Err EBad end
+                                   | None => Err EBad end
+                                 else Err EBad
+                 | _ => Err EBad end
+    | TNamed c => match v with
+                  | VNT c' items => if String.eqb c c' then
+                                      match lookup c E with
+                                      | Some ds => bs <- pack_items (fun x ft => pack ls x c ft) items ds ;; Ok (BList bs)
+                                      | None => Err EBad end
+                                    else Err EBad
+                  | _ => Err EBad end
+    | TTyped c => match v with
+                  | VDict kvs => match lookup c E with
+                                 | Some ds => bs <- pack_fields (fun x ft => pack ls x c ft) false kvs ds ;; Ok (BDict bs)
+                                 | None => Err EBad end
+                  | _ => Err EBad end
+    | TFix c => match v with
+                | VColl CTuple items => match lookup c E with
+                                        | Some ds => bs <- pack_items (fun x ft => pack ls x self ft) items ds ;; Ok (BList bs)
+                                        | None => Err EBad end
+                | _ => Err EBad end
     end.
-  Proof. destruct v; destruct t; reflexivity. Qed.
+  Proof. destruct v as [| | | | | | | | |ck ? | |]; try destruct ck; destruct t; reflexivity. Qed.
 
   Lemma unpack_eq ls b self t :
     unpack ls b self t =
@@ -279,6 +315,27 @@ Section Model.
                                             | None => Err EBad end
                        | _ => Err EBad end
         | _ => Err EBad end
+    | TColl ck t' => match b with
+                     | BList l => vs <- mapM (fun x => unpack ls x self t') l ;; Ok (VColl ck vs)
+                     | _ => Err EBad end
+    | TEnum e => match lookup e EN, bv_to_ev b with
+                 | Some ms, Some x => match enum_find ms x with Some m => Ok (VEnum e m) | None => Err EBad end
+                 | _, _ => Err EBad end
+    | TNamed c => match b with
+                  | BList l => match lookup c E with
+                               | Some ds => vs <- unpack_items (fun x ft => unpack ls x c ft) l ds ;; Ok (VNT c vs)
+                               | None => Err EBad end
+                  | _ => Err EBad end
+    | TTyped c => match b with
+                  | BDict kvs => match lookup c E with
+                                 | Some ds => vs <- unpack_fields (map (bind_clos (unpack ls) c) kvs) ds ;; Ok (VDict vs)
+                                 | None => Err EBad end
+                  | _ => Err EBad end
+    | TFix c => match b with
+                | BList l => match lookup c E with
+                             | Some ds => vs <- unpack_items (fun x ft => unpack ls x self ft) l ds ;; Ok (VColl CTuple vs)
+                             | None => Err EBad end
+                | _ => Err EBad end
     end.
   Proof. destruct b; destruct t; reflexivity. Qed.
 
@@ -315,6 +372,19 @@ Section Model.
     - exfalso. eapply pack_data_not_none. exact H.
     - destruct v; try discriminate. destruct (is_variant vs c); [|discriminate].
       exfalso. eapply pack_data_not_none. exact H.
+    - destruct v; try discriminate. destruct (ckind_eqb ck ck0); [|discriminate].
+      destruct (mapM (fun x => pack ls x self t) l); discriminate.
+    - destruct v; try discriminate. destruct (String.eqb e e0); [|discriminate].
+      destruct (lookup e EN); [|discriminate]. destruct (lookup m l) as [x|]; [|discriminate].
+      destruct x; discriminate.
+    - destruct v; try discriminate. destruct (String.eqb c c0); [|discriminate].
+      destruct (lookup c E); [|discriminate].
+      destruct (pack_items (fun x ft => pack ls x c ft) items l); discriminate.
+    - destruct v; try discriminate. destruct (lookup c E); [|discriminate].
+      destruct (pack_fields (fun x ft => pack ls x c ft) false kvs l); discriminate.
+    - destruct v as [| | | | | | | | |ck items| |]; try discriminate. destruct ck; try discriminate.
+      destruct (lookup c E); [|discriminate].
+      destruct (pack_items (fun x ft => pack ls x self ft) items l); discriminate.
   Qed.
 
   Lemma pack_vnone ls self : forall t b, pack ls VNone self t = Ok b -> b = BNone.
@@ -399,16 +469,16 @@ Section Model.
     forall self t b, wf_ty E t = true -> leaves_okb v = true ->
                      pack ls v self t = Ok b -> unpack ls (norm F b) self t = Ok v.
 
-  Lemma fields_rt F ls c :
+  Lemma fields_rt F ls c om :
     forall fs ds bs pre,
     Forall (fun kv => rt_at F ls (snd kv)) fs ->
     nodupb (map fst ds) = true ->
     (forall n, In n (map fst ds) -> lookup n pre = None) ->
-    (omit_none ls = true ->
+    (om = true ->
      forallb (fun d => match d with (_, (ft, dn)) => negb (is_opt ft) || dn end) ds = true) ->
     forallb (fun d => match d with (_, (ft, _)) => wf_ty E ft end) ds = true ->
     forallb (fun kv => match kv with (_, x) => leaves_okb x end) fs = true ->
-    pack_fields (fun x ft => pack ls x c ft) (omit_none ls) fs ds = Ok bs ->
+    pack_fields (fun x ft => pack ls x c ft) om fs ds = Ok bs ->
     unpack_fields (pre ++ map (bind_clos (unpack ls) c) (map (normkv F) bs)) ds = Ok fs.
   Proof.
     induction fs as [|[n' x] fs' IH]; intros ds bs pre HF Hnd Hpre Hdef Hwf Hlv H.
@@ -423,7 +493,7 @@ Section Model.
       simpl in Hlv. apply andb_true_iff in Hlv. destruct Hlv as [Hlx Hlv].
       simpl in Hwf. apply andb_true_iff in Hwf. destruct Hwf as [Hwft Hwf].
       assert (Hpre_n : lookup n pre = None) by (apply Hpre; left; reflexivity).
-      destruct (omit_none ls && is_opt ft && is_vnone x) eqn:Eom.
+      destruct (om && is_opt ft && is_vnone x) eqn:Eom.
       + (* the key was omitted: lookup misses, the default (None) is taken *)
         apply andb_true_iff in Eom. destruct Eom as [Eom Evn].
         apply andb_true_iff in Eom. destruct Eom as [Eomit Eopt].
@@ -468,7 +538,7 @@ Section Model.
     unfold Fmt.unpack_data. simpl. rewrite El.
     replace (map (fun kv => match kv with (k, x) => (k, norm F x) end) bs) with (map (normkv F) bs) by reflexivity.
     assert (Hfs : unpack_fields ([] ++ map (bind_clos (unpack ls) c) (map (normkv F) bs)) ds = Ok fs).
-    { apply (fields_rt F ls c fs ds bs []); auto.
+    { apply (fields_rt F ls c (omit_none ls) fs ds bs []); auto.
       intro Ho. apply (defaults_class c ds (Hdef Ho) El). }
     simpl in Hfs. rewrite Hfs. reflexivity.
   Qed.
@@ -506,15 +576,62 @@ Section Model.
     apply String.eqb_eq in Heq. subst c'. exists tag. exact Hin.
   Qed.
 
+  Lemma items_rt F ls c :
+    forall items ds bs,
+    Forall (rt_at F ls) items ->
+    forallb (fun d => match d with (_, (ft, _)) => wf_ty E ft end) ds = true ->
+    forallb leaves_okb items = true ->
+    pack_items (fun x ft => pack ls x c ft) items ds = Ok bs ->
+    unpack_items (fun x ft => unpack ls x c ft) (map (norm F) bs) ds = Ok items.
+  Proof.
+    induction items as [|x r IH]; intros ds bs HF Hwf Hlv H.
+    - destruct ds; simpl in H; [inversion H; reflexivity | discriminate].
+    - destruct ds as [|[n [ft d]] ds']; simpl in H; [discriminate|].
+      apply bind_ok in H. destruct H as [b [Hb H]].
+      apply bind_ok in H. destruct H as [rs [Hr H]]. inversion H; subst bs; clear H.
+      inversion HF as [|? ? Hx Ht]; subst.
+      simpl in Hwf. apply andb_true_iff in Hwf. destruct Hwf as [Hw1 Hw2].
+      simpl in Hlv. apply andb_true_iff in Hlv. destruct Hlv as [Hl1 Hl2].
+      simpl. rewrite (Hx c ft b Hw1 Hl1 Hb). simpl. rewrite (IH ds' rs Ht Hw2 Hl2 Hr). reflexivity.
+  Qed.
+
+  Lemma enum_find_lookup : forall ms m x,
+    ev_nodupb (map snd ms) = true -> lookup m ms = Some x -> enum_find ms x = Some m.
+  Proof.
+    induction ms as [|[m' x'] r IH]; intros m x Hnd Hl; simpl in *; [discriminate|].
+    apply andb_true_iff in Hnd. destruct Hnd as [Hni Hnd].
+    destruct (String.eqb m' m) eqn:Em.
+    - inversion Hl; subst. apply String.eqb_eq in Em. subst.
+      assert (Er : ev_eqb x x = true) by (destruct x; simpl; [apply String.eqb_refl | apply Z.eqb_refl]).
+      rewrite Er. reflexivity.
+    - destruct (ev_eqb x' x) eqn:Ex.
+      + exfalso. apply negb_true_iff in Hni.
+        assert (existsb (ev_eqb x') (map snd r) = true) as Hex.
+        { apply existsb_exists. exists x. split; [|exact Ex].
+          apply in_map_iff. exists (m, x). split; [reflexivity | apply lookup_in; exact Hl]. }
+        rewrite Hex in Hni. discriminate.
+      + apply IH; assumption.
+  Qed.
+
+  Lemma wf_enums_class e ms : wf_enums EN = true -> lookup e EN = Some ms -> ev_nodupb (map snd ms) = true.
+  Proof.
+    intros Hwf Hl. unfold wf_enums in Hwf. rewrite forallb_forall in Hwf.
+    specialize (Hwf (e, ms) (lookup_in _ _ _ Hl)). simpl in Hwf. apply andb_true_iff in Hwf. tauto.
+  Qed.
+
+  Lemma ev_bv_rt F x : bv_to_ev (norm F (ev_to_bv x)) = Some x.
+  Proof. destruct x; reflexivity. Qed.
+
   (* -- the round trip on trees ---------------------------------------------------- *)
   Theorem rt_tree F ls :
-    coherentb F ls = true -> wf_env E = true -> (omit_none ls = true -> defaults_okb E = true) ->
+    coherentb F ls = true -> wf_env E = true -> wf_enums EN = true ->
+    (omit_none ls = true -> defaults_okb E = true) ->
     forall v, rt_at F ls v.
   Proof.
-    intros Hco Hwf Hdef.
-    induction v as [|b0|z0|f0|s0|k0 p0|l IHl|kvs IHk|c0 fs IHf] using pv_ind'; unfold rt_at;
+    intros Hco Hwf Hwe Hdef.
+    induction v as [|b0|z0|f0|s0|k0 p0|l IHl|kvs IHk|c0 fs IHf|ck0 cl IHc|en em|nc ni IHn] using pv_ind'; unfold rt_at;
       intros self t; revert self;
-      induction t as [| | | |k|s| |t IHt|t IHt|t IHt|c| |fld vs]; intros self b Hwt Hlv H;
+      induction t as [| | | |k|s| |t IHt|t IHt|t IHt|c| |fld vs|ck t IHt|e|c|c|c]; intros self b Hwt Hlv H;
       rewrite pack_eq in H; try discriminate;
       try (inversion H; subst b; rewrite unpack_eq; reflexivity).
     all: try (simpl in H; inversion H; subst b; reflexivity).
@@ -538,6 +655,15 @@ Section Model.
       apply bind_ok in Hx. destruct Hx as [y [Hy Hx]]. inversion Hx; subst. simpl.
       rewrite Forall_forall in IHk. rewrite (IHk (k', x) Hin self t bx); auto.
       simpl in Hlv. rewrite forallb_forall in Hlv. apply (Hlv (k', x)). exact Hin.
+    - (* TTyped *)
+      destruct (lookup c E) as [ds|] eqn:El; [|discriminate].
+      apply bind_ok in H. destruct H as [bs [Hbs H]]. inversion H; subst b; clear H.
+      destruct (wf_env_class c ds Hwf El) as [Hnd Hwtd].
+      rewrite unpack_eq. simpl. rewrite El.
+      replace (map (fun kv => match kv with (k, x) => (k, norm F x) end) bs) with (map (normkv F) bs) by reflexivity.
+      assert (Hfs : unpack_fields ([] ++ map (bind_clos (unpack ls) c) (map (normkv F) bs)) ds = Ok kvs).
+      { apply (fields_rt F ls c false kvs ds bs []); auto. discriminate. }
+      simpl in Hfs. rewrite Hfs. reflexivity.
     - (* TData *) rewrite unpack_eq. apply data_rt; auto.
     - (* TSelf *) rewrite unpack_eq. apply data_rt; auto.
     - (* TDiscr *)
@@ -563,6 +689,29 @@ Section Model.
       rewrite lookup_normkv, Hlt. simpl.
       rewrite (lookup_nodup_in tag c0 vs Hnd Hin).
       exact Hdata.
+    - (* TColl *) destruct (ckind_eqb ck ck0) eqn:Ek; [|discriminate].
+      assert (ck = ck0) by (destruct ck, ck0; try discriminate; reflexivity). subst ck0.
+      apply bind_ok in H. destruct H as [bs [Hbs H]]. inversion H; subst b. rewrite unpack_eq. simpl.
+      rewrite (mapM_rt (fun x => pack ls x self t) (fun x => unpack ls x self t) (norm F) cl bs); auto.
+      intros x bx Hin Hx. rewrite Forall_forall in IHc. apply (IHc x Hin); auto.
+      simpl in Hlv. rewrite forallb_forall in Hlv. apply Hlv. exact Hin.
+    - (* TFix *) destruct ck0; try discriminate.
+      destruct (lookup c E) as [ds|] eqn:El; [|discriminate].
+      apply bind_ok in H. destruct H as [bs [Hbs H]]. inversion H; subst b; clear H.
+      destruct (wf_env_class c ds Hwf El) as [_ Hwtd].
+      rewrite unpack_eq. simpl. rewrite El.
+      rewrite (items_rt F ls self cl ds bs IHc Hwtd Hlv Hbs). reflexivity.
+    - (* TEnum *) destruct (String.eqb e en) eqn:Ee; [|discriminate]. apply String.eqb_eq in Ee. subst en.
+      destruct (lookup e EN) as [ms|] eqn:El; [|discriminate].
+      destruct (lookup em ms) as [x|] eqn:Em; [|discriminate]. inversion H; subst b.
+      rewrite unpack_eq. rewrite El, ev_bv_rt.
+      rewrite (enum_find_lookup ms em x (wf_enums_class e ms Hwe El) Em). reflexivity.
+    - (* TNamed *) destruct (String.eqb c nc) eqn:Ec; [|discriminate]. apply String.eqb_eq in Ec. subst nc.
+      destruct (lookup c E) as [ds|] eqn:El; [|discriminate].
+      apply bind_ok in H. destruct H as [bs [Hbs H]]. inversion H; subst b; clear H.
+      destruct (wf_env_class c ds Hwf El) as [_ Hwtd].
+      rewrite unpack_eq. simpl. rewrite El.
+      rewrite (items_rt F ls c ni ds bs IHn Hwtd Hlv Hbs). reflexivity.
   Qed.
 
   (* -- the document versus the basic form ------------------------------------------ *)
@@ -672,14 +821,15 @@ Section Model.
       + inversion Hrels as [Hr]. rewrite Hrel. reflexivity.
   Qed.
 
-  Lemma fields_doc F ls c :
+  Lemma fields_doc F ls c om :
+    (om = true -> omit_none ls = true) ->
     forall fs, Forall (fun kv => doc_at F ls (snd kv)) fs ->
     forall ds bs, Forall (fun kv => nn (omit_none ls) (snd kv)) bs ->
-    pack_fields (fun x ft => pack ls x c ft) (omit_none ls) fs ds = Ok bs ->
+    pack_fields (fun x ft => pack ls x c ft) om fs ds = Ok bs ->
     exists bbs, pack_fields (fun x ft => pack (basic_of ls) x c ft) false fs ds = Ok bbs /\
                 rn F (BDict bs) = side (omit_none ls) (BDict bbs).
   Proof.
-    induction 1 as [|[n' x] fs' Hx _ IH]; intros ds bs HQ H.
+    intro Hom. induction 1 as [|[n' x] fs' Hx _ IH]; intros ds bs HQ H.
     - destruct ds; simpl in H; [|discriminate]. inversion H. exists []. split; [reflexivity|].
       unfold rn, side. simpl. destruct (omit_none ls); reflexivity.
     - destruct ds as [|[n [ft d]] ds']; simpl in H; [discriminate|].
@@ -687,10 +837,10 @@ Section Model.
       apply bind_ok in H. destruct H as [b [Hb H]].
       apply bind_ok in H. destruct H as [r [Hr H]]. inversion H; subst bs; clear H.
       simpl in Hx.
-      destruct (omit_none ls && is_opt ft && is_vnone x) eqn:Eom.
+      destruct (om && is_opt ft && is_vnone x) eqn:Eom.
       + (* omitted key: the basic form has it with value None, which ~ drops *)
         apply andb_true_iff in Eom. destruct Eom as [Eom Evn].
-        apply andb_true_iff in Eom. destruct Eom as [Eomit Eopt].
+        apply andb_true_iff in Eom. destruct Eom as [Eomit Eopt]. apply Hom in Eomit.
         destruct x; try discriminate.
         destruct (IH ds' r HQ Hr) as [bbs [Hbbs Hrels]].
         exists ((n, BNone) :: bbs).
@@ -720,15 +870,33 @@ Section Model.
     destruct (String.eqb c c'); [|discriminate].
     destruct (lookup c E) as [ds|]; [|discriminate].
     apply bind_ok in H. destruct H as [bs [Hbs H]]. inversion H; subst b; clear H.
-    destruct (fields_doc F ls c fs HF ds bs (nn_dict _ _ Hnn) Hbs) as [bbs [Hb Hrel]].
+    destruct (fields_doc F ls c (omit_none ls) (fun H => H) fs HF ds bs (nn_dict _ _ Hnn) Hbs) as [bbs [Hb Hrel]].
     exists (BDict bbs). rewrite Hb. simpl. split; [reflexivity | exact Hrel].
+  Qed.
+
+  Lemma items_doc F ls c :
+    forall items, Forall (doc_at F ls) items ->
+    forall ds bs, Forall (nn (omit_none ls)) bs ->
+    pack_items (fun x ft => pack ls x c ft) items ds = Ok bs ->
+    exists bbs, pack_items (fun x ft => pack (basic_of ls) x c ft) items ds = Ok bbs /\
+                map (rn F) bs = map (side (omit_none ls)) bbs.
+  Proof.
+    induction 1 as [|x r Hx _ IH]; intros ds bs HQ H.
+    - destruct ds; simpl in H; [|discriminate]. inversion H. exists []. split; reflexivity.
+    - destruct ds as [|[n [ft d]] ds']; simpl in H; [discriminate|].
+      apply bind_ok in H. destruct H as [b [Hb H]].
+      apply bind_ok in H. destruct H as [rs [Hr H]]. inversion H; subst bs; clear H.
+      inversion HQ as [|? ? Hq1 Hq2]; subst.
+      destruct (Hx c ft b Hq1 Hb) as [bb [Hbb Hrel]].
+      destruct (IH ds' rs Hq2 Hr) as [bbs [Hbbs Hrels]].
+      exists (bb :: bbs). simpl. rewrite Hbb. simpl. rewrite Hbbs. simpl. rewrite Hrel, Hrels. split; reflexivity.
   Qed.
 
   Theorem doc_tree F ls : forall v, doc_at F ls v.
   Proof.
-    induction v as [|b0|z0|f0|s0|k0 p0|l IHl|kvs IHk|c0 fs IHf] using pv_ind'; unfold doc_at;
+    induction v as [|b0|z0|f0|s0|k0 p0|l IHl|kvs IHk|c0 fs IHf|ck0 cl IHc|en em|nc ni IHn] using pv_ind'; unfold doc_at;
       intros self t; revert self;
-      induction t as [| | | |k|s| |t IHt|t IHt|t IHt|c| |fld vs]; intros self b Hnn H;
+      induction t as [| | | |k|s| |t IHt|t IHt|t IHt|c| |fld vs|ck t IHt|e|c|c|c]; intros self b Hnn H;
       rewrite pack_eq in H; try discriminate;
       rewrite (pack_eq (basic_of ls));
       try (inversion H; subst b; eexists; split; [reflexivity|];
@@ -756,9 +924,37 @@ Section Model.
     - (* TDict *) apply bind_ok in H. destruct H as [bs [Hbs H]]. inversion H; subst b.
       destruct (dict_doc F ls self t kvs IHk bs (nn_dict _ _ Hnn) Hbs) as [bbs [Hb Hrel]].
       exists (BDict bbs). rewrite Hb. simpl. split; [reflexivity | exact Hrel].
+    - (* TTyped *)
+      destruct (lookup c E) as [ds|]; [|discriminate].
+      apply bind_ok in H. destruct H as [bs [Hbs H]]. inversion H; subst b; clear H.
+      destruct (fields_doc F ls c false (fun H => False_ind _ (Bool.diff_false_true H)) kvs IHk ds bs (nn_dict _ _ Hnn) Hbs)
+        as [bbs [Hb Hrel]].
+      exists (BDict bbs). rewrite Hb. simpl. split; [reflexivity | exact Hrel].
     - (* TData *) apply data_doc; assumption.
     - (* TSelf *) apply data_doc; assumption.
     - (* TDiscr *) destruct (is_variant vs c0); [|discriminate]. apply data_doc; assumption.
+    - (* TColl *) destruct (ckind_eqb ck ck0); [|discriminate].
+      apply bind_ok in H. destruct H as [bs [Hbs H]]. inversion H; subst b.
+      destruct (list_doc F ls self t cl IHc bs (nn_list _ _ Hnn) Hbs) as [bbs [Hb Hm]].
+      exists (BList bbs). rewrite Hb. simpl. split; [reflexivity|].
+      rewrite side_list. rewrite <- Hm. unfold rn. simpl. rewrite map_map. reflexivity.
+    - (* TFix *) destruct ck0; try discriminate.
+      destruct (lookup c E) as [ds|]; [|discriminate].
+      apply bind_ok in H. destruct H as [bs [Hbs H]]. inversion H; subst b; clear H.
+      destruct (items_doc F ls self cl IHc ds bs (nn_list _ _ Hnn) Hbs) as [bbs [Hb Hm]].
+      exists (BList bbs). rewrite Hb. simpl. split; [reflexivity|].
+      rewrite side_list. rewrite <- Hm. unfold rn. simpl. rewrite map_map. reflexivity.
+    - (* TEnum *) destruct (String.eqb e en); [|discriminate].
+      destruct (lookup e EN) as [ms|]; [|discriminate].
+      destruct (lookup em ms) as [x|]; [|discriminate]. inversion H; subst b.
+      eexists. split; [reflexivity|].
+      destruct x; (rewrite side_scalar; [reflexivity | discriminate | discriminate]).
+    - (* TNamed *) destruct (String.eqb c nc); [|discriminate].
+      destruct (lookup c E) as [ds|]; [|discriminate].
+      apply bind_ok in H. destruct H as [bs [Hbs H]]. inversion H; subst b; clear H.
+      destruct (items_doc F ls c ni IHn ds bs (nn_list _ _ Hnn) Hbs) as [bbs [Hb Hm]].
+      exists (BList bbs). rewrite Hb. simpl. split; [reflexivity|].
+      rewrite side_list. rewrite <- Hm. unfold rn. simpl. rewrite map_map. reflexivity.
   Qed.
 
   (* for json / yaml / orjson nothing at all is ignored: the parsed document IS the basic form *)
@@ -790,7 +986,7 @@ Section Model.
 
     (* F's representable subset *)
     Definition in_subset (ls: lsem) (F: fmt) (t: ty) (v: pv) : Prop :=
-      wf_env E = true /\ wf_ty E t = true /\ leaves_okb v = true /\
+      wf_env E = true /\ wf_enums EN = true /\ wf_ty E t = true /\ leaves_okb v = true /\
       exists b, pack ls v "" t = Ok b /\ representable leaf_repr F b = true.
 
     Definition defaults_ok (ls: lsem) : Prop := omit_none ls = true -> defaults_okb E = true.
@@ -799,9 +995,9 @@ Section Model.
       coherentb F ls = true -> in_subset ls F t v -> defaults_ok ls ->
       encode ls F t v = Ok d -> decode ls F t d = Ok v.
     Proof.
-      intros Hco [Hwf [Hwt [Hlv [b [Hb Hr]]]]] Hdef He. unfold encode in He. rewrite Hb in He. simpl in He.
+      intros Hco [Hwf [Hwe [Hwt [Hlv [b [Hb Hr]]]]]] Hdef He. unfold encode in He. rewrite Hb in He. simpl in He.
       inversion He; subst d. unfold decode. rewrite (fmt_law F b Hr).
-      apply (rt_tree F ls Hco Hwf Hdef v "" t b Hwt Hlv Hb).
+      apply (rt_tree F ls Hco Hwf Hwe Hdef v "" t b Hwt Hlv Hb).
     Qed.
 
     Lemma repr_nonull b : repr_in leaf_repr FToml b = true -> nonullb b = true.
@@ -829,7 +1025,7 @@ Section Model.
       exists pd bb, parse F d = Some pd /\ pack (basic_of ls) v "" t = Ok bb /\
                     approx render (omit_none ls) pd bb.
     Proof.
-      intros Hom [Hwf [Hwt [Hlv [b [Hb Hr]]]]] He. unfold encode in He. rewrite Hb in He. simpl in He.
+      intros Hom [Hwf [Hwe [Hwt [Hlv [b [Hb Hr]]]]]] He. unfold encode in He. rewrite Hb in He. simpl in He.
       inversion He; subst d.
       destruct (doc_tree F ls v "" t b) as [bb [Hbb Hrel]]; auto.
       { unfold nn. intro Ho. specialize (Hom Ho). subst F.
@@ -849,7 +1045,7 @@ Section Model.
       { rewrite Ho. discriminate. }
       exists bb. split; [exact Hbb|]. rewrite Hp. f_equal.
       unfold approx in Hap. rewrite Ho in Hap. rewrite <- Hap.
-      destruct Hin as [_ [_ [_ [b [Hb Hr]]]]]. unfold encode in He. rewrite Hb in He. simpl in He.
+      destruct Hin as [_ [_ [_ [_ [b [Hb Hr]]]]]]. unfold encode in He. rewrite Hb in He. simpl in He.
       inversion He; subst d. rewrite (fmt_law F b Hr) in Hp. inversion Hp; subst pd.
       clear Hp He. unfold representable in Hr. apply andb_true_iff in Hr. destruct Hr as [Hr _].
       destruct F; try discriminate.
@@ -877,7 +1073,7 @@ Definition all_repr (F: fmt) (k: lkind) (p: string) : bool := true.
 Definition roundtrip_full : Prop :=
   forall (render: lkind -> string -> string) (parse_leaf: lkind -> string -> option string)
          (urender: nat -> lkind -> string -> string) (uparse: nat -> lkind -> string -> option string)
-         (leaf_ok: lkind -> string -> bool) (E: env),
+         (leaf_ok: lkind -> string -> bool) (E: env) (EN: enums),
     (forall k p, leaf_ok k p = true -> parse_leaf k (render k p) = Some p) ->
     (forall u k p, leaf_ok k p = true -> uparse u k (urender u k p) = Some p) ->
     forall (doc: Type) (ser: fmt -> bv -> doc) (parse: fmt -> doc -> option bv)
@@ -885,25 +1081,25 @@ Definition roundtrip_full : Prop :=
     (forall F b, representable leaf_repr F b = true -> parse F (ser F b) = Some (norm render F b)) ->
     forall ls F t v d,
       coherentb F ls = true ->
-      in_subset render urender leaf_ok E leaf_repr ls F t v ->
-      encode render urender E doc ser ls F t v = Ok d ->
-      decode parse_leaf uparse E doc parse ls F t d = Ok v.
+      in_subset render urender leaf_ok E EN leaf_repr ls F t v ->
+      encode render urender E EN doc ser ls F t v = Ok d ->
+      decode parse_leaf uparse E EN doc parse ls F t d = Ok v.
 
 Definition witness_env : env := [("A", [("x", (TOpt TInt, false))])].
 Definition witness_ty : ty := TData "A".
 Definition witness_val : pv := VObj "A" [("x", VNone)].
 
 Lemma witness_in_subset :
-  in_subset id_render id_urender all_ok witness_env all_repr (lsem_of FToml) FToml witness_ty witness_val.
+  in_subset id_render id_urender all_ok witness_env [] all_repr (lsem_of FToml) FToml witness_ty witness_val.
 Proof.
-  unfold in_subset. split; [reflexivity|]. split; [reflexivity|]. split; [reflexivity|].
+  unfold in_subset. split; [reflexivity|]. split; [reflexivity|]. split; [reflexivity|]. split; [reflexivity|].
   exists (BDict []). split; reflexivity.
 Qed.
 
 Theorem roundtrip_refuted : ~ roundtrip_full.
 Proof.
   intro H.
-  specialize (H id_render id_parse_leaf id_urender id_uparse all_ok witness_env
+  specialize (H id_render id_parse_leaf id_urender id_uparse all_ok witness_env []
                 (fun k p _ => eq_refl) (fun u k p _ => eq_refl) bv (fun F b => b)
                 (fun F d => Some (norm id_render F d)) all_repr (fun F b _ => eq_refl)
                 (lsem_of FToml) FToml witness_ty witness_val (BDict []) eq_refl witness_in_subset eq_refl).
